@@ -323,4 +323,47 @@ Section Decode.
     destruct (pfor_dec_excs fuel (pm_count m1) (u32 e) z3 vals); try discriminate.
     injection D as -> ->. reflexivity.
   Qed.
+
+  (* GetAt, for any metadata that agrees with the encoder's on
+     min / marker / width / count (the encoder's own, or ReadMeta's) *)
+  Theorem get_at_layout tl m1 i :
+    pm_min m1 = pm_min m -> pm_marker m1 = pm_marker m -> pm_width m1 = pm_width m ->
+    pm_count m1 = N.of_nat (length xs) -> (i < length xs)%nat ->
+    pfor_get_at (pfor_layout m xs ++ tl) (N.of_nat i) m1 = POk (nth i xs 0).
+  Proof.
+    intros E1 E2 E3 E4 Hi. unfold pfor_get_at. cbv zeta. rewrite E1, E2, E3, E4.
+    replace (N.of_nat (length xs) <=? N.of_nat i) with false by lia.
+    fold (pfor_hdr_len m xs).
+    destruct (nth_split xs 0 Hi) as (a & b & Hx & Ha).
+    set (v := nth i xs 0) in *.
+    assert (Hv : In v xs) by (subst v; apply nth_In; exact Hi).
+    assert (B : flat_map (pfor_slot m) xs
+                = flat_map (pfor_slot m) a ++ pfor_slot m v ++ flat_map (pfor_slot m) b).
+    { rewrite Hx at 1. rewrite flat_map_app. reflexivity. }
+    pose proof (layout_fuel tl) as Hf.
+    set (fuel := S (length (pfor_layout m xs ++ tl))) in *.
+    rewrite layout_split. rewrite <- !app_assoc.
+    rewrite !dropN_add.
+    rewrite (app_assoc (tagged_put64 (pm_min m))), (app_assoc (tagged_put64 (pm_min m) ++ [pm_width m])).
+    rewrite <- (app_assoc (tagged_put64 (pm_min m))).
+    rewrite (dropN_app_length' (tagged_put64 (pm_min m) ++ [pm_width m] ++ tagged_put64 (N.of_nat (length xs))))
+      by (symmetry; apply hdr_length).
+    rewrite B at 1. rewrite <- !app_assoc.
+    rewrite (dropN_app_length' (flat_map (pfor_slot m) a)).
+    2:{ rewrite (body_length m xs w MO a), Ha, (mo_width _ _ _ MO). reflexivity. }
+    rewrite (slot_read m xs w MO OK v _ Hv).
+    destruct (pfor_is_exc (pm_min m) (pm_tv m) (pm_marker m) v) eqn:E.
+    - rewrite N.eqb_refl. cbn [negb].
+      rewrite (dropN_app_length' (flat_map (pfor_slot m) xs)).
+      2:{ rewrite (body_length m xs w MO xs), (mo_width _ _ _ MO). reflexivity. }
+      fold ec. pose proof ec_small as Hec.
+      rewrite rd_tagged_put by lia.
+      pose proof (search_ok m xs OK xs (fun v H => H) [] i fuel tl Hi) as S.
+      cbn [length Nat.add] in S. change (N.of_nat 0) with 0 in S. fold ec in S.
+      apply S; [exact E | subst fuel; lia | lia].
+    - destruct (regular_offset m xs w MO OK v Hv E) as (A1 & A2 & A3 & A4).
+      destruct (v - pm_min m =? pm_marker m) eqn:E5; [lia|]. cbn [negb].
+      f_equal. unfold add64. pose proof (in64 xs OK v Hv).
+      replace (pm_min m + (v - pm_min m)) with v by lia. apply N.mod_small. assumption.
+  Qed.
 End Decode.
